@@ -281,7 +281,13 @@ def _r_tables(c):
 
 
 # function -> (the rule group that decides it, label).  A property whose code reaches the function rests on the group.
+def _r_sort(c):
+    from .c15 import order_rules
+    order_rules(c)
+
+
 REGISTRY = {
+    "AbsoluteSequence.sort": (_r_sort, "canonical sort (ORDER)"),
     "RelativeSequence.normalise_relative": (_r_normalise, "normaliser (C07 rules)"),
     "RelativeSequence.split": (_r_split, "split (C08 rules)"),
     "AbsoluteSequence.quantise": (_r_quantise, "quantise (C05 rules)"),
